@@ -4,5 +4,5 @@ P="$1"; shift
 cd /repo || exit 3
 git diff --quiet || { echo "repo dirty"; exit 3; }
 git apply "$P" || { echo "patch does not apply"; exit 3; }
-for id in "$@"; do (cd /verif && ./check "$id" ${TIER:+--tier $TIER} 2>&1 | grep -E "^(VIOLATION|INCONCLUSIVE|KNOWN|C[0-9]+ tier)" | cut -c1-300 | head -${LINES_MAX:-6}); done
+for id in "$@"; do (cd /verif && ./check "$id" ${TIER:+--tier $TIER} > /tmp/try_seed_$$.log 2>&1; grep -E "^(VIOLATION|INCONCLUSIVE|KNOWN|C[0-9]+ tier)" /tmp/try_seed_$$.log | cut -c1-300 | head -${LINES_MAX:-6}; grep -qE "^C[0-9]+ tier|^INCONCLUSIVE" /tmp/try_seed_$$.log || { echo "CHECK CRASHED:"; tail -5 /tmp/try_seed_$$.log; }; rm -f /tmp/try_seed_$$.log); done
 git checkout -- . && git status --short
